@@ -186,3 +186,77 @@ Section PowellProofs.
     destruct (pw_run_ok ops sc Hclean HP) as (_ & Hh & _). exact (Hh Hsm).
   Qed.
 End PowellProofs.
+
+(* C04 for Powell: although a generation's record reaches the step monitor one phase late (and is completed by Finalize), the
+   LAST entry of the solver's energy history is the reported best energy after every operation of a clean run *)
+Section PowellHistory.
+  Variable N : Num.
+  Variable inf : T N.
+  Notation E := (T N).
+  Notation vec := (vec N).
+  Notation sys := (sys N).
+  Notation pw := (pw N).
+  Notation A := (pw_algo N inf).
+
+  Definition H_pw (s : sys) (c : pw) : Prop :=
+    (pextra_e N c <> [] -> stepmon N s <> []) /\
+    (length (pextra_e N c) <= 1)%nat /\
+    (energy_history N _ _ A s c <> [] -> last (energy_history N _ _ A s c) inf = snd (pw_best N inf c)).
+
+  Lemma last_app_one {X} (l : list X) x d : last (l ++ [x]) d = x.
+  Proof. induction l as [|a l IH]; simpl; auto. destruct (l ++ [x]) eqn:Eq; [destruct l; discriminate|exact IH]. Qed.
+
+  Lemma pw_step_hist s c i : H_pw s c ->
+    let r := run_prog inf true s (pw_step N inf s c i) in
+    H_pw (set_stepmon N (fst r) (stepmon N (fst r) ++ snd (snd r))) (fst (snd r)).
+  Proof.
+    intros (Hx & Hl & Hh). cbv zeta.
+    destruct (run_prog_cfg N inf true _ (pw_step N inf s c i) s) as (_ & _ & Hs). cbv zeta in Hs.
+    unfold H_pw, energy_history. cbn [stepmon set_stepmon a_ehist_extra pw_algo]. rewrite Hs.
+    revert Hs. unfold pw_step. cbv zeta.
+    destruct (stepmon N s) as [|sm0 smr] eqn:Hsm.
+    - (* generation 0 *)
+      cbn [run_prog]. intros _. cbn [fst snd pextra_e pw_best px pe hd].
+      assert (He : pextra_e N c = []).
+      { destruct (pextra_e N c) as [|e0 er] eqn:E0; auto. exfalso. assert (K : e0 :: er <> []) by discriminate. apply Hx in K. congruence. }
+      rewrite He. split; [intros K; congruence|]. split; [simpl; lia|].
+      destruct (is_zero_limit (maxiter N s)); cbn [app map snd]; [intros K; congruence|reflexivity].
+    - destruct (Nat.eqb (length (sm0 :: smr) + length (pextra_e N c)) 1) eqn:E1.
+      + rewrite (bind_run_t N inf). cbn [run_prog fst snd]. intros _.
+        cbn [pextra_e pw_best px pe hd snd]. rewrite app_nil_r.
+        split; [intros _; discriminate|]. split; [simpl; lia|].
+        intros _. apply last_app_one.
+      + destruct (px2 N i) as [x2|].
+        * cbn [run_prog]. rewrite !(bind_run_t N inf). cbn [run_prog fst snd]. intros _.
+          cbn [pextra_e pw_best px pe hd snd].
+          split; [intros _; destruct (pextra_e N c); simpl; discriminate|]. split; [simpl; lia|].
+          intros _. apply last_app_one.
+        * cbn [run_prog fst snd]. intros _. rewrite app_nil_r.
+          split; [intros K; discriminate|]. split; [exact Hl|].
+          unfold energy_history in Hh. cbn [a_ehist_extra pw_algo] in Hh. rewrite Hsm in Hh. exact Hh.
+  Qed.
+
+  Theorem pw_history_ok : forall ops sc,
+    Forall (clean_op N _ (pw_ok_in N) false) ops -> H_pw (fst sc) (snd sc) ->
+    H_pw (fst (run N inf _ _ A sc ops)) (snd (run N inf _ _ A sc ops)).
+  Proof.
+    apply (run_joint N inf _ _ A H_pw (pw_ok_in N) false).
+    - intros s s' c Ec Es _ (Hx & Hl & Hh). unfold H_pw, energy_history in *. rewrite Es. auto.
+    - intros s c i Hi H. cbn [a_decorate pw_algo]. unfold pw_decorate. unfold pw_ok_in in Hi. rewrite Hi. exact H.
+    - intros s c i _ H. cbn [a_nested a_step pw_algo]. apply pw_step_hist. exact H.
+    - intros s c (Hx & Hl & Hh). cbn [a_finalize pw_algo]. unfold pw_finalize.
+      unfold H_pw, energy_history in *. cbn [a_ehist_extra pw_algo] in *.
+      destruct (pextra_e N c) as [|e0 er] eqn:Ee.
+      + cbn [fst snd stepmon set_stepmon]. rewrite Ee, !app_nil_r in *. auto.
+      + destruct (live N s); cbn [fst snd stepmon set_stepmon pextra_e pw_best px pe].
+        * split; [intros K; congruence|]. split; [simpl; lia|].
+          intros _. rewrite app_nil_r, map_app. cbn [map snd]. apply last_app_one.
+        * rewrite Ee, !app_nil_r in *. auto.
+  Qed.
+
+  Lemma pw_init_hist s ndim : stepmon N s = [] -> H_pw s (pw_init N inf ndim).
+  Proof.
+    intros Hs. unfold H_pw, energy_history. cbn [pw_init pextra_e a_ehist_extra pw_algo]. rewrite Hs. simpl.
+    split; [intros K; congruence|]. split; [lia|intros K; congruence].
+  Qed.
+End PowellHistory.
